@@ -214,6 +214,49 @@ func runC16(c *an.Ctx) {
 	}
 	c.MinCount("R2", "calls of cutting scanners", nCut, 1)
 	c16ParsedIsApplied(c)
+	// a regular expression taken from rule text is compiled as written: in the ctl parser (and wherever a pattern
+	// goes to regexp.Compile from text that is not a collection key of a case-insensitive collection) nothing
+	// case-folds it first - lower-casing turns \S into \s, \D into \d, [A-Z] into [a-z] without any error
+	if pc := c.Fn("R2", "internal/actions.parseCtl"); pc != nil {
+		nRx := 0
+		for _, f := range an.WithClosures(pc) {
+			an.Instrs(f, func(in ssa.Instruction) {
+				if !an.IsCallToFunc(in, "regexp", "Compile") && !an.IsCallToFunc(in, "regexp", "MustCompile") {
+					return
+				}
+				nRx++
+				folded := ""
+				arg := an.CallOf(in).Args[0]
+				srcs := []ssa.Value{arg}
+				// inside the memoised closure the pattern is a free variable: follow its binding
+				if u, ok := arg.(*ssa.UnOp); ok {
+					if fv, ok := u.X.(*ssa.FreeVar); ok {
+						for _, b := range closureBindings(pc, f, fv) {
+							srcs = append(srcs, b)
+						}
+					}
+				}
+				if fv, ok := arg.(*ssa.FreeVar); ok {
+					for _, b := range closureBindings(pc, f, fv) {
+						srcs = append(srcs, b)
+					}
+				}
+				for _, sv := range srcs {
+					for d := range an.Deps(sv) {
+						if call, ok := d.(*ssa.Call); ok && call.Call.StaticCallee() != nil && call.Call.StaticCallee().Pkg != nil && call.Call.StaticCallee().Pkg.Pkg.Path() == "strings" {
+							switch call.Call.StaticCallee().Name() {
+							case "ToLower", "ToUpper", "Title", "ToTitle":
+								folded = "strings." + call.Call.StaticCallee().Name()
+							}
+						}
+					}
+				}
+				c.Check(folded == "", "R2", fmt.Sprintf("parseCtl: regex key #%d is compiled as written", nRx), in.Pos(), "no case folding on the way to regexp.Compile",
+					"the regular expression of a ctl collection key passes through "+folded+" before it is compiled: escapes and classes that depend on letter case (\\S, \\D, \\W, [A-Z]) silently change meaning, so the ctl excludes a different set of targets than the text says")
+			})
+		}
+		c.MinCount("R2", "regex compilations in parseCtl", nRx, 1)
+	}
 	// unclosed quote in an action list
 	if pa := c.Fn("R2", "internal/seclang.parseActions"); pa != nil {
 		errIdx := an.ErrorIndex(pa.Signature)
@@ -612,4 +655,35 @@ func c16ParsedIsApplied(c *an.Ctx) {
 		})
 	}
 	c.MinCount("R2", "values parsed from directive/action text", n, 15)
+}
+
+// closureBindings: the values bound to free variable fv of closure cl at its MakeClosure sites inside outer.
+func closureBindings(outer, cl *ssa.Function, fv *ssa.FreeVar) []ssa.Value {
+	idx := -1
+	for i, v := range cl.FreeVars {
+		if v == fv {
+			idx = i
+		}
+	}
+	var out []ssa.Value
+	if idx < 0 {
+		return out
+	}
+	for _, f := range an.WithClosures(outer) {
+		an.Instrs(f, func(in ssa.Instruction) {
+			if mc, ok := in.(*ssa.MakeClosure); ok && mc.Fn == ssa.Value(cl) && idx < len(mc.Bindings) {
+				b := mc.Bindings[idx]
+				out = append(out, b)
+				// a captured variable lives in a cell: what is stored into it
+				if a, ok := b.(*ssa.Alloc); ok {
+					for _, r := range *a.Referrers() {
+						if st, ok := r.(*ssa.Store); ok && st.Addr == ssa.Value(a) {
+							out = append(out, st.Val)
+						}
+					}
+				}
+			}
+		})
+	}
+	return out
 }
